@@ -99,6 +99,7 @@ type op struct {
 	Accepted bool   `json:"accepted_by_node"`
 	Err      string `json:"error,omitempty"`
 
+	direct    bool
 	kind      int
 	deliverer *trafficx.Party
 	issuer    common.Address
@@ -118,6 +119,9 @@ type world struct {
 	sumCred map[common.Address]*big.Int // sum of amounts the store credited per issuer
 	sent    map[common.Address][]*chequePkg.SignedCheque // cheques of kind valid already delivered
 	names   map[common.Address]string
+	// direct: cheques are handed to the cheque store itself (no delivering peer), so only
+	// the recipient, signature and monotonicity clauses apply
+	direct bool
 }
 
 func (w *world) lastOf(a common.Address) *big.Int {
@@ -327,11 +331,25 @@ func (w *world) gen(t *testing.T, rng *rand.Rand, kind int) *op {
 }
 
 func (o *op) shouldAccept() bool {
+	if o.direct {
+		return o.RecipientIsUs && o.SigValid && o.Increasing
+	}
 	return o.RecipientIsUs && o.SigValid && o.Increasing && o.PeerKnown && o.PeerIsIssuer
 }
 
 // failedClause names the first clause of the statement that the cheque does not meet.
 func (o *op) failedClause() string {
+	if o.direct {
+		switch {
+		case !o.RecipientIsUs:
+			return "wrong-recipient"
+		case !o.SigValid:
+			return "bad-signature"
+		case !o.Increasing:
+			return "not-increasing"
+		}
+		return ""
+	}
 	switch {
 	case !o.PeerKnown:
 		return "from-unregistered-peer"
@@ -355,15 +373,22 @@ func witness(hist []*op) interface{} {
 func (w *world) deliver(t *testing.T, run *obs.Run, c *obs.Case, hist []*op, o *op) {
 	var err error
 	var panicked interface{}
+	pfx := ""
+	o.direct = w.direct
 	func() {
 		defer func() { panicked = recover() }()
-		err = w.node.Svc.ReceiveCheque(context.Background(), o.deliverer.Overlay, o.cheque)
+		if w.direct {
+			pfx = "store-"
+			_, err = w.node.CS.ReceiveCheque(context.Background(), o.cheque)
+		} else {
+			err = w.node.Svc.ReceiveCheque(context.Background(), o.deliverer.Overlay, o.cheque)
+		}
 	}()
-	run.Stat("cheques_delivered", 1)
-	run.Stat("kind/"+o.Kind, 1)
+	run.Stat(pfx+"cheques_delivered", 1)
+	run.Stat(pfx+"kind/"+o.Kind, 1)
 	if panicked != nil {
 		o.Err = fmt.Sprint("panic: ", panicked)
-		c.Viol("panic-receive-cheque/"+o.Kind, o.Err, witness(hist))
+		c.Viol(pfx+"panic-receive-cheque/"+o.Kind, o.Err, witness(hist))
 		// a panic under the peer lock leaves the service unusable: stop this history
 		return
 	}
@@ -392,22 +417,22 @@ func (w *world) deliver(t *testing.T, run *obs.Run, c *obs.Case, hist []*op, o *
 	}
 	switch {
 	case o.Accepted && want:
-		run.Stat("accepted", 1)
+		run.Stat(pfx+"accepted", 1)
 		w.last[o.issuer] = new(big.Int).Set(o.cheque.CumulativePayout)
 		w.settled[o.deliverer.Addr] = new(big.Int).Set(o.cheque.CumulativePayout)
 		if o.kind == kValid {
 			w.sent[o.issuer] = append(w.sent[o.issuer], o.cheque)
 		}
 	case !o.Accepted && !want:
-		run.Stat("rejected/"+o.failedClause(), 1)
+		run.Stat(pfx+"rejected/"+o.failedClause(), 1)
 		if len(creds) > 0 {
-			c.Viol("rejected-but-credited", "ReceiveCheque returned an error after the store credited the cheque", witness(hist))
+			c.Viol(pfx+"rejected-but-credited", "ReceiveCheque returned an error after the store credited the cheque", witness(hist))
 		}
 	case o.Accepted && !want:
-		c.Viol("accepted-"+o.failedClause(), fmt.Sprintf("cheque of kind %q delivered by %s (stated issuer %s, signed by %s, recipient %s, payout %s) was accepted",
+		c.Viol(pfx+"accepted-"+o.failedClause(), fmt.Sprintf("cheque of kind %q delivered by %s (stated issuer %s, signed by %s, recipient %s, payout %s) was accepted",
 			o.Kind, o.DeliveredBy, o.Issuer, o.SignedBy, o.Recipient, o.Payout), witness(hist))
 	default:
-		c.Viol("rejected-valid-cheque", fmt.Sprintf("valid increasing cheque from %s rejected: %v", o.DeliveredBy, err), witness(hist))
+		c.Viol(pfx+"rejected-valid-cheque", fmt.Sprintf("valid increasing cheque from %s rejected: %v", o.DeliveredBy, err), witness(hist))
 	}
 	w.checkState(t, run, c, hist, o)
 }
@@ -442,6 +467,9 @@ func (w *world) checkState(t *testing.T, run *obs.Run, c *obs.Case, hist []*op, 
 			c.Viol("credited-sum-differs-from-last-received", fmt.Sprintf("issuer %s: sum of credited amounts %v, stored last cheque %v", p.Name, sum, got), witness(hist))
 			w.sumCred[p.Addr] = new(big.Int).Set(got)
 		}
+	}
+	if w.direct {
+		return
 	}
 	// per-peer view of the service
 	tcs, err := w.node.Svc.TrafficCheques()
@@ -553,5 +581,50 @@ func TestChequeHistories(t *testing.T) {
 			run.Sample(map[string]interface{}{"history": hist})
 		}
 		c.End(fmt.Sprintf("kinds=%s/accepted=%d", strings.Join(ks, ","), accepted), accepted > 0 && len(kinds) >= 4)
+	}
+}
+
+// TestChequeStoreDirect hands the same kinds of cheques to the real cheque store itself.
+func TestChequeStoreDirect(t *testing.T) {
+	run := obs.Start(t, "C30")
+	defer run.Done()
+	run.Rule("the same generator, cheques handed to chequeStore.ReceiveCheque directly: accepted iff recipient is this node, the signature is the stated issuer's and the payout is above that issuer's last accepted one; credited amount = increase; distinct = set of kinds x accepted count")
+	n := run.N(150, 1500)
+	for i := 0; i < n; i++ {
+		c := run.Begin(fmt.Sprintf("store/%d", i), nil)
+		if c == nil {
+			continue
+		}
+		rng := c.Rand()
+		w := newWorld(t, rng, 2+rng.Intn(2))
+		w.direct = true
+		var hist []*op
+		kinds := map[string]bool{}
+		accepted := 0
+		for len(hist) < 20 {
+			k := pickKind(rng, nil)
+			if len(hist) < 2 {
+				k = kValid
+			}
+			o := w.gen(t, rng, k)
+			if o == nil {
+				continue
+			}
+			hist = append(hist, o)
+			w.deliver(t, run, c, hist, o)
+			kinds[o.Kind] = true
+			if o.Accepted {
+				accepted++
+			}
+			if strings.HasPrefix(o.Err, "panic:") {
+				break
+			}
+		}
+		ks := make([]string, 0, len(kinds))
+		for k := range kinds {
+			ks = append(ks, k)
+		}
+		sort.Strings(ks)
+		c.End(fmt.Sprintf("store/kinds=%s/accepted=%d", strings.Join(ks, ","), accepted), accepted > 0 && len(kinds) >= 4)
 	}
 }
